@@ -70,6 +70,7 @@ type ReverseSuffixSearcher struct {
 	matchStartZero bool   // True if pattern starts with .* (match always starts at 0)
 	fwdCachePool   sync.Pool
 	revCachePool   sync.Pool
+	vmPool         sync.Pool // per-goroutine PikeVMs (a PikeVM keeps per-search state)
 }
 
 // NewReverseSuffixSearcher creates a reverse suffix searcher from forward NFA.
@@ -152,203 +153,44 @@ func NewReverseSuffixSearcher(
 	s.revCachePool = sync.Pool{
 		New: func() any { return s.reverseDFA.NewCache() },
 	}
+	s.vmPool = sync.Pool{
+		New: func() any { return nfa.NewPikeVM(s.forwardNFA) },
+	}
 	return s, nil
 }
 
-// Find searches using suffix literal prefilter + reverse DFA and returns the match.
-//
-// Algorithm (find LAST suffix for greedy semantics):
-//  1. Use prefilter to find the LAST suffix literal candidate
-//  2. Use reverse DFA to find match START (leftmost)
-//  3. Return match immediately (no forward scan needed!)
-//
-// Why find LAST suffix?
-//   - Pattern `.*\.txt` is greedy - `.*` matches as much as possible
-//   - For input "a.txt.txt", the greedy match is the ENTIRE string [0:9]
-//   - Finding the LAST `.txt` (at position 5) and reverse scanning gives us this
-//   - No expensive forward DFA scan needed!
-//
-// Performance:
-//   - Single prefilter scan to find last suffix: O(n)
-//   - Single reverse DFA scan: O(n)
-//   - Total: O(n) with small constant
-//
-// Example:
-//
-//	Pattern: `.*\.txt`
-//	Haystack: "a.txt.txt"
-//	Suffix literal: `.txt`
-//
-//	1. Prefilter finds LAST `.txt` at position 5
-//	2. Reverse DFA from [0,9] finds match start = 0
-//	3. Return [0:9] = "a.txt.txt" (greedy!)
-func (s *ReverseSuffixSearcher) Find(haystack []byte) *Match {
-	if len(haystack) == 0 {
-		return nil
-	}
-
-	// For matchStartZero (unanchored .* prefix), match starts at the beginning
-	// of the line containing the LAST suffix — .* (AnyCharNotNL) cannot cross \n.
-	if s.matchStartZero {
-		lastPos := bytes.LastIndex(haystack, s.suffixBytes)
-		if lastPos == -1 {
-			return nil
-		}
-		revEnd := lastPos + s.suffixLen
-		if revEnd > len(haystack) {
-			revEnd = len(haystack)
-		}
-		matchStart := lineStartBefore(haystack, 0, lastPos)
-		return NewMatch(matchStart, revEnd, haystack)
-	}
-
-	// For bounded wildcards (e.g., \d+\.\d+\.35), find the FIRST suffix
-	// candidate for leftmost match semantics. LastIndex would give rightmost.
-	firstPos := bytes.Index(haystack, s.suffixBytes)
-	if firstPos == -1 {
-		return nil
-	}
-
-	// Acquire caches once for the entire candidate loop
-	revCache := s.revCachePool.Get().(*lazy.DFACache)
-	fwdCache := s.fwdCachePool.Get().(*lazy.DFACache)
-	defer s.revCachePool.Put(revCache)
-	defer s.fwdCachePool.Put(fwdCache)
-
-	// Try each suffix candidate left-to-right until we find a valid match.
-	// This ensures leftmost semantics for multi-wildcard patterns.
-	pos := firstPos
-	for pos >= 0 && pos+s.suffixLen <= len(haystack) {
-		revEnd := pos + s.suffixLen
-
-		// Use reverse DFA to find match START position
-		matchStart := s.reverseDFA.SearchReverse(revCache, haystack, 0, revEnd)
-		if matchStart >= 0 {
-			// Forward verification: get correct greedy match end.
-			matchEnd := s.forwardDFA.SearchAt(fwdCache, haystack, matchStart)
-			if matchEnd >= 0 {
-				return NewMatch(matchStart, matchEnd, haystack)
-			}
-			// DFA failed — fallback to PikeVM
-			start, end, found := s.pikevm.SearchAt(haystack, matchStart)
-			if found {
-				return NewMatch(start, end, haystack)
-			}
-		}
-
-		// Try next suffix candidate
-		next := bytes.Index(haystack[pos+1:], s.suffixBytes)
-		if next == -1 {
-			break
-		}
-		pos = pos + 1 + next
-	}
-
-	// No valid match found
-	return nil
+// pikeSearchAt runs the NFA simulation on a pooled PikeVM.
+func (s *ReverseSuffixSearcher) pikeSearchAt(haystack []byte, at int) (start, end int, found bool) {
+	vm := s.vmPool.Get().(*nfa.PikeVM)
+	start, end, found = vm.SearchAt(haystack, at)
+	s.vmPool.Put(vm)
+	return start, end, found
 }
 
-// FindAt searches for a match starting from position 'at' using suffix prefilter + reverse DFA.
+// Find searches using suffix literal prefilter + reverse DFA and returns the
+// leftmost-first match.
 //
-// Unlike Find() which returns the greedy (last suffix) match, FindAt returns the first
-// match starting at or after position 'at'. This is essential for FindAll iteration.
-//
-// Algorithm:
-//  1. Use prefilter to find suffix candidates >= at
-//  2. For each candidate, use reverse DFA to find match START (from 'at' position)
-//  3. Return first valid match [start, suffixEnd]
-//  4. Anti-quadratic guard (minStart) prevents re-scanning already-checked regions
-//
-// Performance:
-//   - Prefilter scan: O(n) from 'at' position
-//   - Reverse DFA verification: O(m) where m is match length
-//   - Anti-quadratic guard ensures total work across all candidates is O(n)
+// Every match of the pattern ends with the suffix literal, so a haystack
+// without an occurrence of it - or one where no occurrence can be reached
+// backwards from a match start - has no match: that is decided by one memmem
+// scan plus bounded reverse DFA scans and is where the strategy pays off.
+// Once an occurrence is confirmed to end a match, the match that regexp would
+// report need not be that one (`a..z|bz` on "abzz": the first confirmed suffix
+// ends [1,3], the leftmost match is [0,4]; `.*x` on "x\nx": the leftmost match
+// is on the first line), so the span itself comes from the core engines:
+// forward DFA from the search start for the leftmost-first end, reverse DFA
+// from that end for the start.
+func (s *ReverseSuffixSearcher) Find(haystack []byte) *Match {
+	return s.FindAt(haystack, 0)
+}
+
+// FindAt returns the leftmost-first match starting at or after position 'at'.
 func (s *ReverseSuffixSearcher) FindAt(haystack []byte, at int) *Match {
-	if at >= len(haystack) {
+	start, end, found := s.FindIndicesAt(haystack, at)
+	if !found {
 		return nil
 	}
-
-	searchStart := at
-	minStart := at // Anti-quadratic guard
-
-	// Acquire caches once for the entire candidate loop
-	revCache := s.revCachePool.Get().(*lazy.DFACache)
-	fwdCache := s.fwdCachePool.Get().(*lazy.DFACache)
-	defer s.revCachePool.Put(revCache)
-	defer s.fwdCachePool.Put(fwdCache)
-
-	for {
-		// Find next suffix candidate starting from searchStart
-		pos := s.prefilter.Find(haystack, searchStart)
-		if pos == -1 {
-			return nil
-		}
-
-		// Calculate suffix end position
-		suffixEnd := pos + s.suffixLen
-		if suffixEnd > len(haystack) {
-			suffixEnd = len(haystack)
-		}
-
-		// For unanchored patterns (like .*@suffix), .* cannot cross \n.
-		// Match starts at the beginning of the line containing 'pos'.
-		// For greedy semantics, find the LAST suffix on that line.
-		if s.matchStartZero {
-			// Find start of the line containing the suffix candidate
-			matchLineStart := lineStartBefore(haystack, at, pos)
-			// Find end of this line
-			lineEnd := bytes.IndexByte(haystack[pos:], '\n')
-			var lineEndAbs int
-			if lineEnd == -1 {
-				lineEndAbs = len(haystack)
-			} else {
-				lineEndAbs = pos + lineEnd
-			}
-			// Find LAST suffix on this line for greedy match
-			lastPos := bytes.LastIndex(haystack[matchLineStart:lineEndAbs], s.suffixBytes)
-			if lastPos >= 0 {
-				matchEnd := matchLineStart + lastPos + s.suffixLen
-				if matchEnd > len(haystack) {
-					matchEnd = len(haystack)
-				}
-				return NewMatch(matchLineStart, matchEnd, haystack)
-			}
-			return nil
-		}
-
-		// Use reverse DFA with anti-quadratic guard to find match START position
-		matchStart := s.reverseDFA.SearchReverseLimited(revCache, haystack, at, suffixEnd, minStart)
-		if matchStart >= 0 {
-			// Forward verification: get correct greedy match end (Issue #124)
-			matchEnd := s.forwardDFA.SearchAt(fwdCache, haystack, matchStart)
-			if matchEnd >= 0 {
-				return NewMatch(matchStart, matchEnd, haystack)
-			}
-			// DFA failed — fallback to PikeVM
-			fwdStart, fwdEnd, found := s.pikevm.SearchAt(haystack, matchStart)
-			if found {
-				return NewMatch(fwdStart, fwdEnd, haystack)
-			}
-			return nil
-		}
-		if matchStart == lazy.SearchReverseLimitedQuadratic {
-			// Quadratic behavior detected - fall back to PikeVM
-			start, end, found := s.pikevm.SearchAt(haystack, at)
-			if found {
-				return NewMatch(start, end, haystack)
-			}
-			return nil
-		}
-
-		// Update anti-quadratic guard
-		minStart = suffixEnd
-
-		// Try next candidate
-		searchStart = pos + 1
-		if searchStart >= len(haystack) {
-			return nil
-		}
-	}
+	return NewMatch(start, end, haystack)
 }
 
 // FindIndicesAt returns match indices starting from position 'at' - zero allocation version.
@@ -371,59 +213,29 @@ func (s *ReverseSuffixSearcher) FindIndicesAtWithCaches(haystack []byte, at int,
 	return s.findIndicesAtImpl(haystack, at, fwdCache, revCache)
 }
 
-// findIndicesAtImpl is the shared implementation for FindIndicesAt and FindIndicesAtWithCaches.
+// findIndicesAtImpl is the shared implementation of every find entry point.
 func (s *ReverseSuffixSearcher) findIndicesAtImpl(haystack []byte, at int, fwdCache, revCache *lazy.DFACache) (start, end int, found bool) {
 	if at >= len(haystack) {
 		return -1, -1, false
 	}
 
+	// Phase 1 (filter): is there a suffix occurrence that ends some match
+	// starting at or after 'at'? minStart keeps the reverse scans from
+	// re-reading a region an earlier candidate already covered; when a scan
+	// is cut short by it the answer is unknown and the core engines decide.
 	searchStart := at
 	minStart := at
-
 	for {
-		pos := s.prefilter.Find(haystack, searchStart)
+		pos := bytes.Index(haystack[searchStart:], s.suffixBytes)
 		if pos == -1 {
 			return -1, -1, false
 		}
-
+		pos += searchStart
 		suffixEnd := pos + s.suffixLen
-		if suffixEnd > len(haystack) {
-			suffixEnd = len(haystack)
-		}
-
-		if s.matchStartZero {
-			// .* (AnyCharNotNL) cannot cross \n boundaries.
-			// Find the line containing the suffix candidate.
-			lineStart := lineStartBefore(haystack, at, pos)
-			lineEnd := bytes.IndexByte(haystack[pos:], '\n')
-			var lineEndAbs int
-			if lineEnd == -1 {
-				lineEndAbs = len(haystack)
-			} else {
-				lineEndAbs = pos + lineEnd
-			}
-			// Find LAST suffix on this line for greedy match
-			lastPos := bytes.LastIndex(haystack[lineStart:lineEndAbs], s.suffixBytes)
-			if lastPos >= 0 {
-				matchEnd := lineStart + lastPos + s.suffixLen
-				if matchEnd > len(haystack) {
-					matchEnd = len(haystack)
-				}
-				return lineStart, matchEnd, true
-			}
-			return -1, -1, false
-		}
 
 		matchStart := s.reverseDFA.SearchReverseLimited(revCache, haystack, at, suffixEnd, minStart)
-		if matchStart >= 0 {
-			matchEnd := s.forwardDFA.SearchAt(fwdCache, haystack, matchStart)
-			if matchEnd >= 0 {
-				return matchStart, matchEnd, true
-			}
-			return s.pikevm.SearchAt(haystack, matchStart)
-		}
-		if matchStart == lazy.SearchReverseLimitedQuadratic {
-			return s.pikevm.SearchAt(haystack, at)
+		if matchStart >= 0 || matchStart == lazy.SearchReverseLimitedQuadratic {
+			break
 		}
 
 		minStart = suffixEnd
@@ -432,6 +244,21 @@ func (s *ReverseSuffixSearcher) findIndicesAtImpl(haystack []byte, at int, fwdCa
 			return -1, -1, false
 		}
 	}
+
+	// Phase 2 (core): leftmost-first end from 'at', then the start for that end.
+	end = s.forwardDFA.SearchAt(fwdCache, haystack, at)
+	if end < 0 {
+		return -1, -1, false
+	}
+	if end == at {
+		return at, at, true // empty match: nothing to scan backwards
+	}
+	start = s.reverseDFA.SearchReverse(revCache, haystack, at, end)
+	if start < 0 {
+		// The two automata disagree: let the NFA simulation decide
+		return s.pikeSearchAt(haystack, at)
+	}
+	return start, end, true
 }
 
 // IsMatch checks if the pattern matches using suffix prefilter + reverse DFA.
@@ -456,11 +283,12 @@ func (s *ReverseSuffixSearcher) IsMatch(haystack []byte) bool {
 	minStart := 0
 	for {
 		// Find next suffix candidate
-		pos := s.prefilter.Find(haystack, start)
+		pos := bytes.Index(haystack[start:], s.suffixBytes)
 		if pos == -1 {
 			// No more candidates
 			return false
 		}
+		pos += start
 
 		// Reverse search from haystack start to suffix end
 		// pos is the START of the suffix, so we need to add suffixLen
@@ -487,8 +315,10 @@ func (s *ReverseSuffixSearcher) IsMatch(haystack []byte) bool {
 			return true
 		}
 		if revResult == lazy.SearchReverseLimitedQuadratic {
-			// Quadratic behavior detected - fall back to PikeVM
-			_, _, matched := s.pikevm.Search(haystack)
+			// Scan cut short by the guard: the forward DFA decides
+			fwdCache := s.fwdCachePool.Get().(*lazy.DFACache)
+			matched := s.forwardDFA.IsMatch(fwdCache, haystack)
+			s.fwdCachePool.Put(fwdCache)
 			return matched
 		}
 
